@@ -396,6 +396,11 @@ def history_sweep_cases(tier):
                 yield {'nlog': 2, 'nparam': 3, 'mems': [1], 'version': 10, 'needs_resending': False, 'delays': [0.001],
                        'attempts': [{'fault': None, 'close_at': 0.5, 'sync': sync}, {'fault': {'k': k, 'reporter': rep}, 'close_at': None, 'sync': sync}],
                        'schedule': {'prefix': [], 'seed': k, 'rate': 0.0}}
+    for cb in ('link_established', 'connected', 'fully_connected'):
+        for (nlog, nparam, mems) in ((2, 3, [1]), (0, 0, []), (1, 1, [])):
+            for delay in (0.001, 0.0):
+                yield {'nlog': nlog, 'nparam': nparam, 'mems': mems, 'version': 10, 'needs_resending': False, 'delays': [delay],
+                       'attempts': [{'fault': None, 'close_at': None, 'sync': False, 'close_in_cb': cb}], 'schedule': {'prefix': [], 'seed': 1, 'rate': 0.0}}
     for cb_port in (2, 5, 4, 13):
         for k in range(0, 14):
             yield {'nlog': 2, 'nparam': 3, 'mems': [1], 'version': 10, 'needs_resending': False, 'delays': [0.001],
